@@ -40,7 +40,7 @@ BASE = {
     "i_param_scope": 2.0, "i_obj_rest_nested": 1.5, "i_switch_tdz": 1.5, "i_finally_flow": 2.0,
     "i_destruct_defaults": 2.0, "i_class_order": 2.0, "i_coerce_order": 2.0, "i_tdz_closure": 1.5,
     "i_gen_protocol": 2.0, "i_compound_member": 1.5, "i_args_object": 1.0, "i_getter_setter": 1.5,
-    "i_completion": 1.5, "i_spread_iter": 1.0, "i_label_loops": 1.0, "i_closure_loop": 1.0, "i_loop_head_closure": 2.5,
+    "i_completion": 1.5, "i_spread_iter": 1.0, "i_label_loops": 1.0, "i_closure_loop": 1.0, "i_loop_head_closure": 2.5, "i_param_free_name": 2.5,
     # promises / async functions (jobs run after the script, FIFO)
     "i_async_order": 1.2, "i_promise_chain": 1.2, "i_thenable": 0.8, "i_promise_comb": 0.8, "i_async_flow": 1.0, "await": 6,
     # program-level probabilities
@@ -57,7 +57,7 @@ def _preset(**kw):
 PRESETS = {
     "C01": _preset(),
     # binding placement / operand shortcuts: many locals, closures capturing them, operand clobbering
-    "C04": _preset(i_operand_clobber=5, i_tdz_closure=4, i_closure_loop=4, i_loop_head_closure=6, i_param_scope=4, i_switch_tdz=3, funcdecl=8,
+    "C04": _preset(i_operand_clobber=5, i_tdz_closure=4, i_closure_loop=4, i_loop_head_closure=6, i_param_free_name=6, i_param_scope=4, i_switch_tdz=3, funcdecl=8,
                    classdecl=1, generator=1, p_func_form=0.8, i_update_coerce=3, i_logassign_nested=3),
     # optimizer: constant expressions, literal conditions, completion values
     "C05": _preset(i_completion=6, i_int_edge=4, i_coerce_order=3, classdecl=1, generator=1, p_func_form=0.3, p_const_fold=0.5),
@@ -69,6 +69,8 @@ PRESETS = {
     "async": _preset(i_async_order=8, i_promise_chain=8, i_thenable=5, i_promise_comb=5, i_async_flow=8, classdecl=1, generator=1, p_early_error=0),
     # loop-head closures only (CreatePerIterationEnvironment sentinels)
     "loops": _preset(i_loop_head_closure=30, i_closure_loop=8, p_early_error=0),
+    # parameter scope vs body var environment (FunctionDeclarationInstantiation 27-28)
+    "params": _preset(i_param_free_name=30, i_param_scope=10, p_early_error=0),
     "min": _preset(**{k: 0 for k in BASE if k.startswith("i_") or k in ("with", "eval", "classdecl", "generator")}),
 }
 
@@ -1703,6 +1705,93 @@ class Gen:
         fj = self.add_func(func(kind="FArrow", params=[(pid("f"), None)], expr_body=call(ident("f")), strict=cx.strict))
         return [let(fs, arr(), "KConst"), loop, pr(mcall(mcall(ident(fs), "map", ("EFunc", fj)), "join"))]
 
+
+    # ---------------------------------------------------------------- parameter-scope closures over FREE names the body declares
+    def s_i_param_free_name(self, sc, cx):
+        """function f(p, g = () => x, t = () => typeof x, w = v => { x = v }) { var x = "inner" ... } with an outer x = "outer":
+        the default closures must keep resolving x to the OUTER binding (separate varEnv, FunctionDeclarationInstantiation 28),
+        whether or not the body also redeclares a parameter, for var / function / let body declarations, in every function position"""
+        st = cx.strict
+        x = self.fresh("x")
+        fname = self.fresh("pf")
+        X = ident(x)
+        outer_kind = self.pick(["KLet", "KVar", "KLet"]) if (sc.kind != "block" and self.var_ok(sc, x)) else "KLet"
+        sc.add(Var(x, "let" if outer_kind == "KLet" else "var", "str"))
+        body_decl = self.weighted([("var_init", 4), ("var_late", 2), ("function", 2), ("let", 1.5), ("var_in_block", 1)])
+        redecl = self.chance(0.4)                                   # the body also var-redeclares parameter p (the other code path)
+        use_r, use_t, use_w = True, self.chance(0.6), self.chance(0.6) and body_decl != "function"
+        params = [(pid("p"), None), (pid("g"), self.arrow([], X, strict=st))]
+        if use_t:
+            params.append((pid("t"), self.arrow([], ("EUnary", "UTypeof", X), strict=st)))
+        if use_w:
+            params.append((pid("w"), self.arrow(["v"], ("EAssign", pid(x), ident("v")), strict=st)))
+        if self.chance(0.25):
+            params.insert(1, (pid("q"), ("ESeq", call(ident("print"), estr(fname + ".q"), X), X)))   # a default that reads x directly
+        tag = estr(fname)
+        probes = lambda: [call(ident("g"))] + ([call(ident("t"))] if use_t else [])
+        body = [pr(tag, estr("a"), *probes())]
+        shown = ("EUnary", "UTypeof", X) if body_decl == "function" else X
+        if body_decl == "var_init":
+            body += [("SDecl", "KVar", [(pid(x), estr("inner"))])]
+        elif body_decl == "var_late":
+            body += [pr(tag, estr("pre"), X), ("SDecl", "KVar", [(pid(x), None)]), ("SExpr", ("EAssign", pid(x), estr("inner")))]
+        elif body_decl == "function":
+            fi = self.add_func(func(name=x, kind="FNormal", body=[("SReturn", estr("fn"))], strict=st))
+            body += [("SFunDecl", u(x), fi)]
+        elif body_decl == "let":
+            body += [let(x, estr("inner"))]
+        else:
+            body += [("SBlock", [("SDecl", "KVar", [(pid(x), estr("inner"))])])]
+        body += [pr(tag, estr("b"), shown, *probes())]
+        if use_w:
+            body += [("SExpr", call(ident("w"), estr("written"))), pr(tag, estr("c"), shown, *probes())]
+        if redecl:
+            body.insert(self.rng.randrange(len(body) + 1), ("SDecl", "KVar", [(pid("p"), self.lit("int")) if self.chance(0.6) else (pid("p"), None)]))
+            body.append(pr(tag, estr("p"), ident("p")))
+        pos = self.weighted([("plain", 3), ("generator", 1.5), ("async", 1.5), ("method", 1.5), ("class_method", 1.5), ("arrow", 1.5), ("expr", 1)])
+        after = [pr(tag, estr("outer"), X)]
+        if pos == "generator":
+            body.insert(self.rng.randrange(1, len(body) + 1), ("SYield", None, None, estr("y"), False))
+            body.append(("SReturn", call(ident("g"))))
+            fi = self.add_func(func(name=fname, kind="FGenerator", params=params, body=body, strict=st))
+            it = self.fresh("it")
+            decl = [("SFunDecl", u(fname), fi)] if sc.kind != "block" else [let(fname, ("EFunc", fi), "KConst")]
+            return [let(x, estr("outer"), outer_kind)] + decl + [let(it, call(ident(fname), num(1)), "KConst"),
+                    pr(member(mcall(ident(it), "next"), "value")), pr(member(mcall(ident(it), "next"), "value")), pr(member(mcall(ident(it), "next"), "done"))] + after
+        body.append(("SReturn", call(ident("g"))))
+        if pos == "async":
+            body.insert(self.rng.randrange(1, len(body)), ("SAwait", None, None, num(0)))
+            fi = self.add_func(func(name=fname, kind="FAsync", params=params, body=body, strict=st))
+            decl = [("SFunDecl", u(fname), fi)] if sc.kind != "block" else [let(fname, ("EFunc", fi), "KConst")]
+            return [let(x, estr("outer"), outer_kind)] + decl + [("SExpr", self.then_print(call(ident(fname), num(1)), fname + ".then"))] + after
+        if pos == "method":
+            fi = self.add_func(func(name="m", kind="FMethod", params=params, body=body, strict=st))
+            o = self.fresh("po")
+            return [let(x, estr("outer"), outer_kind), let(o, ("EObject", [("PMethod", ("PKStr", u("m")), fi)]), "KConst"),
+                    guarded([pr(mcall(ident(o), "m", num(1)))], "PF")] + after
+        if pos == "class_method":
+            fi = self.add_func(func(name="m", kind="FMethod", params=params, body=body, strict=True))
+            for (_, d) in params:
+                if d is not None and d[0] == "EFunc":
+                    self.funcs[d[1]]["f_strict"] = True
+            cname = self.fresh("PC")
+            ctor = func(name=cname, kind="FCtorBase", body=[], strict=True)
+            ctor["synthetic"] = True
+            ci = len(self.classes)
+            self.classes.append({"c_name": u(cname), "c_heritage": None, "c_ctor": self.add_func(ctor),
+                                 "c_members": [{"cm_static": self.chance(0.3), "cm_kind": "MMethod", "cm_key": ("PKStr", u("m")), "cm_fidx": fi}]})
+            static = self.classes[ci]["c_members"][0]["cm_static"]
+            recv = ident(cname) if static else ("ENew", ident(cname), [])
+            return [let(x, estr("outer"), outer_kind), ("SClassDecl", u(cname), ci), guarded([pr(mcall(recv, "m", num(1)))], "PF")] + after
+        if pos == "arrow":
+            fi = self.add_func(func(kind="FArrow", params=params, body=body, strict=st))
+            return [let(x, estr("outer"), outer_kind), let(fname, ("EFunc", fi), "KConst"), guarded([pr(call(ident(fname), num(1)))], "PF")] + after
+        fi = self.add_func(func(name=fname if pos == "plain" else "", kind="FNormal", params=params, body=body, strict=st))
+        if pos == "plain" and sc.kind != "block":
+            decl = [("SFunDecl", u(fname), fi)]
+        else:
+            decl = [let(fname, ("EFunc", fi), "KConst")]
+        return [let(x, estr("outer"), outer_kind)] + decl + [guarded([pr(call(ident(fname), num(1)))], "PF")] + after
 
     # ---------------------------------------------------------------- closures created in loop heads (CreatePerIterationEnvironment)
     def s_i_loop_head_closure(self, sc, cx):
